@@ -119,6 +119,9 @@ def check_vector(v):
             t_ = lazy_source()
 
             def write_replaced():
+                for g_ in _dc.fields(src_t):        # every column of the table has been looked at before one of them is replaced
+                    if not (fmt in ("vcf", "sam", "gtf", "gff") and g_.name in ("info", "genotypes", "extra", "atributes")):
+                        getattr(t_, g_.name)
                 with bnp.open(pm, "w", **kw) as w:
                     w.write(bnp.replace(t_, **{f_.name: getattr(lazy_source(), f_.name)}))
                 return open(pm, "rb").read()
